@@ -6,6 +6,6 @@ CONSTANTS
   Flags = {"D", "S", "F"}
   MaxCmds = 12
   Menu = {"select", "close", "noop", "store", "fetch", "expunge", "append", "move", "copy"}
-  Devs = {"CloseRONo", "MoveIgnoresRO"}
+  Devs = {}
 CONSTRAINT Constr
 CHECK_DEADLOCK FALSE
